@@ -30,13 +30,16 @@ REGISTRY = dict(
           "op^dagger = c*op. PARTIAL: 'converged => |result-exp(A)v| <= 10*tol*|v|' (Expokit error estimate) is stated "
           "as a Prop, NOT proved; it is validated against scipy.linalg.expm on the three operator classes of the "
           "property (threshold 10*tol*|v| + 1e-9*max(1,|exp A|)*|v|). Breakdown exactness (residual exactly 0 => result "
-          "= exp(op)v): its algebraic core is proved in Props/C07Breakdown.lean (audited on every run) for every Krylov "
+          "= exp(op)v) is PROVED: its algebraic core in Props/C07Breakdown.lean (audited on every run) for every Krylov "
           "dimension and every complete complex normed space - exp_intertwine (A Q = Q T => exp(A) Q = Q exp(T), Q any "
           "rectangular matrix), exp_krylov_relation (A q_k = sum_i T_ik q_i for all k => exp(A) q_k = sum_i exp(T)_ik q_i), "
           "krylov_breakdown_exact (v = beta q_0 => exp(A) v = beta sum_i exp(T)_i0 q_i, the vector returned on the happy "
           "exit), relation_of_arnoldi_steps / breakdown_exact_of_arnoldi_steps (from the per-iteration Arnoldi relation with "
-          "an exactly vanishing last residual); the statement C07.BreakdownExact about the model's loop itself stays a Prop "
-          "(missing: the invariant that earlier columns of T persist, and the list plumbing of `combine`). FINDING D20-C07 (open, class krylov-early-accept-avnorm): the unchanged code "
+          "an exactly vanishing last residual); Props/C07BreakdownModel.lean (audited on every run) proves the loop invariant on "
+          "the local T (tInv_reach: columns < j satisfy A q_k = sum_i T_ik q_i and are zero below the sub-diagonal, both "
+          "branches, any op), the list/array plumbing of `combine` (happy_exit_result) and C07.BreakdownExact itself "
+          "(breakdownExact_holds: for the exact matrix_exp oracle, a run that ends in iteration j with n2 = 0 returns exp(A)v). "
+          "FINDING D20-C07 (open, class krylov-early-accept-avnorm): the unchanged code "
           "violates the accuracy clause inside the quantifier when the start vector is nearly an eigenvector of the "
           "dominant part (err2 uses |op v_j| instead of Expokit's |op v_{j+1}|): kernel-checked exact model run "
           "(early_accept_witness) + replay on the real code against scipy on every run. FINDING D21-C07 (open, class "
@@ -54,7 +57,10 @@ REGISTRY = dict(
 
 PROP_MODULE = "EmuVerif.Props.C07"
 AUDIT = "Audit/C07.lean"
-EXTRA_STAGES = [("EmuVerif.Props.C07Breakdown", "Audit/C07Breakdown.lean")]   # algebraic core of BreakdownExact; every run
+# BreakdownExact: Props/C07Breakdown.lean (algebraic core) and Props/C07BreakdownModel.lean (loop invariant on T, plumbing,
+# `breakdownExact_holds`; imports the core and Props/C07). One stage on every run: Audit/C07BreakdownModel.lean lists the theorems
+# of BOTH modules (one Mathlib load; Audit/C07Breakdown.lean = the core alone).
+EXTRA_STAGES = [("EmuVerif.Props.C07BreakdownModel", "Audit/C07BreakdownModel.lean")]
 TIE = 1e-9          # decisions closer than this (relative) to their threshold are not compared
 TREL = 1e-12        # tolerance on T entries / result where the model does its own arithmetic (dense run)
 
